@@ -6,6 +6,7 @@ import (
 	"fmt"
 	"os"
 
+	"verifharness/internal/c04"
 	"verifharness/internal/c06"
 	"verifharness/internal/c08"
 	"verifharness/internal/c14"
@@ -20,6 +21,7 @@ import (
 type sub func(tier string, seed int64, outDir string) *common.Meta
 
 var subs = map[string]sub{
+	"c04": c04.Run,
 	"c06": c06.Run,
 	"c08": c08.Run,
 	"c14": c14.Run,
